@@ -1,6 +1,7 @@
 """C07 — the inverted index records exactly terms/docs/freqs/positions: only the code tables."""
 from .. import codetab as ct
-from ..rules import get_body, short
+from ..rules import get_body, short, site
+from ..model import op_place, op_local, place_local, is_bare, trace_back
 
 T = "tantivy::schema::field_type::Type"
 
@@ -9,6 +10,7 @@ def run(rep, prog, tier):
     rep.rule("C07-R1", "schema::Type::{to_code, from_code} are mutually inverse on every variant and ALL_TYPES lists every variant exactly once")
     rep.rule("C07-R2", "fieldnorm::code::FIELD_NORMS_TABLE has 256 entries, starts at 0 and is strictly increasing (precondition of the binary search in fieldnorm_to_id, and of id_to_fieldnorm being its inverse)")
     rep.not_decided += ["everything about posting-list content, positions, term dictionaries (values)"]
+    r3(rep, prog)
     tc = get_body(rep, prog, "C07-R1", T + "::to_code")
     fc = get_body(rep, prog, "C07-R1", T + "::from_code")
     variants = ct.enum_variants(prog, T)
@@ -32,3 +34,86 @@ def run(rep, prog, tier):
     if f2i is not None:
         bs = [t for _, t in f2i.calls() if "binary_search" in t.get("f", "")]
         rep.check(bool(bs), "C07-R2", "fieldnorm_to_id is a binary search over the table", "%d binary_search call(s)" % len(bs), "fieldnorm_to_id no longer binary-searches FIELD_NORMS_TABLE (monotonicity rule may be obsolete)", site=f2i.span)
+
+
+def r3(rep, prog):
+    """position state that spans the values of one field of one document is reset per field, not per value"""
+    from ..rules import innermost_loop
+    from ..mergecov import Aliases
+    R = "C07-R3"
+    rep.rule(R, "position state spans the values of a field: in SegmentWriter::index_document (a) json_positions_per_path is cleared outside the loop over the JSON values of the field (index_json_value relies on it to place the next value of the same path after the previous one plus the position gap), and (b) the IndexingPosition of a text field — whose num_tokens is recorded as the field norm — is created outside the loop over the field's values; resetting either per value makes the terms of different values of one document overlap in position space (phrase queries match across values) and, for text, records the length of the last value only")
+    fid = "tantivy::indexer::segment_writer::SegmentWriter::index_document"
+    b = get_body(rep, prog, R, fid)
+    if b is None:
+        return
+    al = Aliases(b, {1: "self"})
+    # (a) JSON
+    ij = [bi for bi, t in b.calls() if (t.get("res") or t.get("f") or "").endswith("json_utils::index_json_value")]
+    clears = []
+    for bi, t in b.calls():
+        f = t.get("res") or t.get("f") or ""
+        if f.endswith("IndexingPositionsPerPath::clear") and t.get("args"):
+            r = al.resolve(op_place(t["args"][0]))
+            if r and r[1][:1] == (("f", "json_positions_per_path"),):
+                clears.append(bi)
+    if rep.check(len(ij) >= 1 and len(clears) >= 1, R, "index_document: anchors of the JSON arm", "%d index_json_value call(s), %d clear(s) of json_positions_per_path" % (len(ij), len(clears)),
+                 "cannot establish: index_json_value or the clear of json_positions_per_path not found in index_document", site=b.span):
+        for jb in ij:
+            lp = innermost_loop(b, jb)
+            inside = [c for c in clears if c in lp]
+            rep.check(bool(lp) and not inside, R, "json_positions_per_path is not cleared inside the loop over the JSON values", "cleared before the loop",
+                      "index_document clears json_positions_per_path inside the loop over the values of a JSON field: the positions of the second value of a path restart at 0 and overlap those of the first",
+                      site=site(b, inside[0]) if inside else site(b, jb))
+    # (b) text: the IndexingPosition given to index_text and read for the field norm
+    IT = [(bi, t) for bi, t in b.calls() if (t.get("f") or "").endswith("PostingsWriter::index_text")]
+    rec = [(bi, t) for bi, t in b.calls() if (t.get("res") or t.get("f") or "").endswith("FieldNormsWriter::record")]
+    norm_locals = set()
+    for bi, t in rec:
+        for a in t.get("args", []):
+            l = op_local(a)
+            if l is None:
+                continue
+            tr = trace_back(b, l)
+            if any(s[0] == "field" and s[2] == "num_tokens" for s in tr):
+                # the local that owns the field
+                cur = l
+                for _ in range(6):
+                    ds = b.defs().get(cur, [])
+                    if len(ds) != 1 or ds[0][0] != "stmt":
+                        break
+                    o = (ds[0][3].get("o") or [None])[0]
+                    pl = op_place(o) if o is not None else None
+                    if pl is None:
+                        break
+                    cur = place_local(pl)
+                    if not is_bare(pl):
+                        break
+                norm_locals.add(cur)
+    n = 0
+    for bi, t in IT:
+        if len(t.get("args", [])) < 6:
+            continue
+        pl = op_place(t["args"][5])
+        if pl is None:
+            continue
+        tr = trace_back(b, place_local(pl))
+        # &mut L
+        L = place_local(pl)
+        for _ in range(6):
+            ds = b.defs().get(L, [])
+            if len(ds) == 1 and ds[0][0] == "stmt" and ds[0][3].get("r") in ("ref", "rawptr"):
+                L = place_local(ds[0][3]["p"])
+            elif len(ds) == 1 and ds[0][0] == "stmt" and ds[0][3].get("r") == "use" and op_place(ds[0][3]["o"][0]) is not None:
+                L = place_local(op_place(ds[0][3]["o"][0]))
+            else:
+                break
+        if L is None or L not in norm_locals:
+            continue
+        n += 1
+        lp = innermost_loop(b, bi)
+        inits = [d[1] for d in b.defs().get(L, [])]       # every assignment of the whole value
+        inside = [x for x in inits if x in lp]
+        rep.check(bool(lp) and bool(inits) and not inside, R, "the text field's IndexingPosition is created outside the loop over its values", "Default::default() before the loop; num_tokens recorded after it",
+                  "index_document re-creates the IndexingPosition of a text field inside the loop over the field's values: positions of the values overlap and the field norm counts the last value only",
+                  site=site(b, inside[0]) if inside else site(b, bi))
+    rep.floor(R, "text-field index_text sites whose position feeds the field norm", n, 1)
